@@ -2,9 +2,11 @@
 (* Leg B for C16. events:                                                     *)
 (*  ["dma", x, [160 source bytes as the bus returns them now]]  FF46 written  *)
 (*  ["t", addr, v]   one machine cycle, then a CPU read of addr in FE00-FEFF  *)
+(*  ["tk"]           one machine cycle, no access                             *)
 (*  ["sw", i, v]     source byte i rewritten (v as the bus returns it)        *)
 (*  ["w", addr, v]   CPU write to OAM                                         *)
-(*  ["oam", [160 bytes]]  all of FE00-FE9F read through the bus               *)
+(*  ["oam", [160 bytes]]  all of FE00-FE9F (side-effect-free snapshot) after   *)
+(*                   the transfers are over                                   *)
 EXTENDS DMA, TLC, Json, IOUtils, Sequences
 Scens == ndJsonDeserialize(IOEnv.TRACE)
 VARIABLES sc, l
@@ -36,6 +38,7 @@ Next == /\ l <= Len(Scens[sc].ev) /\ l' = l + 1 /\ UNCHANGED sc
         /\ LET e == Ev IN
            CASE e[1] = "dma" -> Start([i \in 0..(N - 1) |-> e[3][i + 1]])
              [] e[1] = "t"   -> TickRead(e[2], e[3])
+             [] e[1] = "tk"  -> Tick
              [] e[1] = "sw"  -> SrcWrite(e[2], e[3])
              [] e[1] = "w"   -> IF e[2] < 65184 THEN Write(e[2] - 65024, e[3]) ELSE UNCHANGED dvars
              [] e[1] = "oam" -> ReadAll(e[2])
